@@ -30,3 +30,44 @@ Example C16_nonvacuous :
   | _ => false
   end = true.
 Proof. vm_compute. reflexivity. Qed.
+
+(* ------------------------------------------------------------------------------------------------------------------------------------ *)
+(* The SPECIFICATION of replace_table on the object language (Ref/Replace.v: one structural map `rep old new` over all 17 sorts that exchanges
+   the table of a column reference / star, and a table standing as a row source, when it == old), tied to the library's 29 replace_table
+   methods by ./check C16: the receiver's tree mapped by rep IN COQ must render as the implementation renders what replace_table returned.
+   Its laws, for ALL terms and statements, all tables old and new (Proofs/ReplaceLaws.v, by mutual induction): *)
+From PT Require Import Model.Types Model.Value Model.Interval Model.Syntax Ref.Replace Proofs.ReplaceLaws.
+
+(* "... and nothing else": where no reference to old occurs, the term is returned as it is *)
+Theorem C16_nothing_else : forall (old new : tref) (t : term), occ old t = false -> rep old new t = t.
+Proof. exact rep_nothing_else. Qed.
+Print Assumptions C16_nothing_else.
+
+(* "replaces every reference": afterwards no reference to old is left, at any depth (new not being == old) *)
+Theorem C16_every_reference : forall (old new : tref) (t : term), tref_eqb new old = false -> occ old (rep old new t) = false.
+Proof. exact rep_every_reference. Qed.
+Print Assumptions C16_every_reference.
+
+Theorem C16_idempotent : forall (old new : tref) (t : term), tref_eqb new old = false -> rep old new (rep old new t) = rep old new t.
+Proof. exact rep_idempotent. Qed.
+
+Theorem C16_statements : forall (old new : tref) (q : query),
+  (occ_q old q = false -> rep_q old new q = q) /\ (tref_eqb new old = false -> occ_q old (rep_q old new q) = false).
+Proof. exact rep_q_laws. Qed.
+Print Assumptions C16_statements.
+
+(* non-vacuity: a reference three levels down (a column inside a function call inside a comparison in the WHERE of a sub-query in FROM) is exchanged,
+   the reference to another table of the same name in another schema is not *)
+Example C16_spec_nonvacuous :
+  let o := MkTRef true (L "old") [] None 0 in
+  let o2 := MkTRef true (L "old") [L "s9"] None 1 in
+  let n := MkTRef true (L "new") [] (Some (L "nw")) 2 in
+  let fl := MkFl None false false false false false false false false false false false false true [] [] None WPlain in
+  let inner c1 c2 := MkQ BGeneric fl (TCons (TTable c1 NoT NoT) TNil) WNil (TCons (TField (L "a") (Some c1) None) TNil) TNil TNil TNil RNil
+             (SomeT (TBasic (CEq Eq) (TFunc (L "LOWER") (TCons (TField (L "b") (Some c1) None) TNil) SpNone NoT false NoT NoOver false None None)
+                                     (TField (L "c") (Some c2) None) None))
+             NoT NoT GNil ONil JNil NoT NoT UNil NoT NoT TNil CUNil NoT NoT TNil TNil in
+  let outer c1 c2 := MkQ BGeneric fl (TCons (TQuery (inner c1 c2)) TNil) WNil (TCons (TStar None None) TNil) TNil TNil TNil RNil NoT NoT NoT GNil ONil JNil NoT NoT UNil
+             NoT NoT TNil CUNil NoT NoT TNil TNil in
+  rep_q o n (outer o o2) = outer n o2 /\ occ_q o (outer o o2) = true /\ occ_q o (outer n o2) = false.
+Proof. vm_compute. repeat split. Qed.
